@@ -1,6 +1,7 @@
 package abfth
 
 import (
+	"os"
 	"fmt"
 	"math/rand"
 	"strconv"
@@ -147,6 +148,42 @@ func mutateVals(r *rand.Rand, v []VW) []VW {
 
 // Gen builds one scenario: the DAG is built online with the real Build on a reference instance.
 func Gen(r *rand.Rand, o GenOpts) []string {
+	// "laggard" family (laggard.go): deep DAG, one big dropped event, a laggard beyond the Build cap.
+	// ABFTH_LAGGARD=<rounds> forces it (measurements, corpus generation).
+	if v := os.Getenv("ABFTH_LAGGARD"); v != "" && (o.Mix == "C04" || o.Mix == "C07") {
+		n, _ := strconv.Atoi(v)
+		return genLaggard(r, o, n, 6+r.Intn(10))
+	}
+	// "long stall" family (stall.go): one block delivering several hundred events.  ABFTH_STALL=<rounds> forces it.
+	if v := os.Getenv("ABFTH_STALL"); v != "" && o.Mix == "C02" {
+		n, _ := strconv.Atoi(v)
+		return genStall(r, o, 7+r.Intn(4), n)
+	}
+	if o.Mix == "C02" {
+		rate := 250
+		if o.Tier == "thorough" {
+			rate = 80
+		}
+		if r.Intn(rate) == 0 {
+			return genStall(r, o, 7+r.Intn(4), 52+r.Intn(16))
+		}
+	}
+	if o.Mix == "C04" || o.Mix == "C07" {
+		rate := map[string]int{"C04": 200, "C07": 400}[o.Mix] // the corpus holds one such case per property
+		if o.Tier == "thorough" {
+			rate = 80
+		}
+		if r.Intn(rate) == 0 {
+			// B, C, D decide three frames in four rounds: 138..150 rounds put the heads at frames 104..113
+			rounds := 138 + r.Intn(13)
+			if o.Mix == "C07" {
+				// more than 1024 events (the seeded tracker cap of C07-g), and 4k+1 rounds: then the newest head is a
+				// fresh root whose forkless-cause quorum for the next event hinges on the silent validator's branch
+				rounds = 353 + 4*r.Intn(12)
+			}
+			return genLaggard(r, o, rounds, 6+r.Intn(10))
+		}
+	}
 	// "late fork root + restart" family (latefork.go)
 	if (o.Mix == "C08" && r.Intn(8) == 0) || (o.Mix == "C04" && r.Intn(10) == 0) {
 		return genLateFork(r, o)
